@@ -223,6 +223,48 @@ fn main() {
             };
             one(ctx, a + shift, b + shift, &widths);
         });
+        // deltas with a special arithmetic relationship: consecutive Fibonacci numbers (the longest
+        // Euclidean sequences), powers of two and their neighbours, multiples and near-multiples of each
+        // other (seeded `C17-14`: deltas reduced by a gcd whose loop is capped at 14 steps - wrong first
+        // for 1597/987)
+        let nsd = run.tier(3_000u64, 400_000u64);
+        run.generate("special-deltas", nsd, false, 0.15, |ctx, idx, rng| {
+            const FIB: [i32; 22] = [1, 2, 3, 5, 8, 13, 21, 34, 55, 89, 144, 233, 377, 610, 987, 1597, 2584, 4181, 6765, 10946, 17711, 28657];
+            let (major, minor) = match idx % 6 {
+                0 => {
+                    let k = rng.usizer(1, FIB.len() - 1);
+                    (FIB[k], FIB[k - 1])
+                }
+                1 => {
+                    let k = rng.usizer(2, FIB.len() - 1);
+                    (FIB[k] + rng.i32r(-1, 1), FIB[k - rng.usizer(1, 2)] + rng.i32r(-1, 1))
+                }
+                2 => ((1 << rng.i32r(1, 14)) + rng.i32r(-1, 1), (1 << rng.i32r(0, 13)) + rng.i32r(-1, 1)),
+                3 => {
+                    let m = rng.i32r(1, 60);
+                    let q = rng.i32r(1, 500);
+                    (m * q + rng.i32r(0, 1), m)
+                }
+                4 => {
+                    // Lucas-like sequences from a random start: long Euclidean runs as well
+                    let (mut a, mut b) = (rng.i32r(1, 9), rng.i32r(1, 9));
+                    for _ in 0..rng.usizer(3, 16) {
+                        let c = a + b;
+                        a = b;
+                        b = c;
+                    }
+                    (b.max(a), b.min(a))
+                }
+                _ => (rng.i32r(1000, 4000), rng.i32r(600, 3000)),
+            };
+            let (major, minor) = (major.max(minor).max(0), minor.min(major).max(0));
+            let (sx, sy) = (if rng.chance(1, 2) { 1 } else { -1 }, if rng.chance(1, 2) { 1 } else { -1 });
+            let d = if rng.chance(1, 2) { Point::new(major * sx, minor * sy) } else { Point::new(minor * sx, major * sy) };
+            let a = Point::new(rng.i32r(-700, 700), rng.i32r(-700, 700));
+            let ws = [1, rng.u32r(2, 6), 2];
+            one(ctx, a, a + d, &ws);
+            ctx.count("lines_with_special_deltas", 1);
+        });
         let nr = run.tier(60_000u64, 20_000_000u64);
         run.generate("random-long", nr, false, 0.6, |ctx, _idx, rng| {
             // one line in eight lies far from the origin (beyond 16 bits on one or both axes)
